@@ -350,6 +350,11 @@ func (ts *TermStore) BVBin(op string, a, b *Term) *Term {
 			return ts.fromLin(linScale(ts.linOf(a), b.val, w), w)
 		}
 	}
+	// narrow multiplications and divisions of small non-negative values: the bit-blasted
+	// circuit of a 64-bit divider is what makes these queries slow, not the values
+	if t := ts.narrowArith(op, a, b); t != nil {
+		return t
+	}
 	// light identities
 	switch op {
 	case "bvadd", "bvor", "bvxor":
@@ -450,6 +455,9 @@ func (ts *TermStore) Extract(hi, lo int, a *Term) *Term {
 	}
 	if (a.op == "zext" || a.op == "sext") && hi < a.args[0].sort.W {
 		return ts.Extract(hi, lo, a.args[0])
+	}
+	if a.op == "zext" && lo == 0 && hi >= a.args[0].sort.W {
+		return ts.ZExt(a.args[0], hi+1)
 	}
 	return ts.mk(&Term{op: "extract", sort: BV(hi - lo + 1), args: []*Term{a}, p1: hi, p2: lo})
 }
@@ -1046,5 +1054,52 @@ func (ts *TermStore) cmpLinear(op string, a, b *Term) *Term {
 		return ts.Not(ts.mk(&Term{op: "bvsle", sort: BoolSort, args: []*Term{dt, z}}))
 	default:
 		return ts.Not(ts.mk(&Term{op: "bvslt", sort: BoolSort, args: []*Term{dt, z}}))
+	}
+}
+
+func (ts *TermStore) narrowArith(op string, a, b *Term) *Term {
+	w := a.sort.W
+	if w < 16 {
+		return nil
+	}
+	half := uint64(1) << uint(w-1)
+	if a.hi >= half || b.hi >= half {
+		return nil
+	}
+	var k int
+	switch op {
+	case "bvmul":
+		if a.hi != 0 && b.hi > (half-1)/a.hi {
+			return nil
+		}
+		k = bitLen(a.hi * b.hi)
+	case "bvudiv", "bvsdiv", "bvurem", "bvsrem":
+		k = bitLen(a.hi)
+		if bl := bitLen(b.hi); bl > k {
+			k = bl
+		}
+	default:
+		return nil
+	}
+	if k < 1 {
+		k = 1
+	}
+	if k+8 > w {
+		return nil
+	}
+	na, nb := ts.Extract(k-1, 0, a), ts.Extract(k-1, 0, b)
+	srt := BV(k)
+	var n *Term
+	switch op {
+	case "bvmul":
+		n = ts.mk(&Term{op: "bvmul", sort: srt, args: []*Term{na, nb}})
+		return ts.ZExt(n, w)
+	case "bvudiv", "bvsdiv":
+		n = ts.mk(&Term{op: "bvudiv", sort: srt, args: []*Term{na, nb}})
+		// x / 0 is all ones in SMT-LIB (for non-negative x under both signed and unsigned division)
+		return ts.Ite(ts.Eq(b, ts.BVConst(0, w)), ts.BVConst(mask(w), w), ts.ZExt(n, w))
+	default:
+		n = ts.mk(&Term{op: "bvurem", sort: srt, args: []*Term{na, nb}})
+		return ts.Ite(ts.Eq(b, ts.BVConst(0, w)), a, ts.ZExt(n, w))
 	}
 }
